@@ -387,13 +387,15 @@ class NetworkService(ModelElement):
         """
         assert name is not None
 
-        # check uniqueness
-        all_names = [n.name for n in self._interfaces]
-        if name in all_names:
-            raise TopologyException(f'Interface {name} is not unique within a network service')
+        # check uniqueness against the model: this handle's list may predate interfaces added through another handle
+        for cid in self.topo.graph_model.get_all_ns_or_link_connection_points(link_id=self.node_id):
+            _, cprops = self.topo.graph_model.get_node_properties(node_id=cid)
+            if cprops.get(ABCPropertyGraph.PROP_NAME) == name:
+                raise TopologyException(f'Interface {name} is not unique within a network service')
         iff = Interface(name=name, node_id=node_id, parent_node_id=self.node_id,
                         etype=ElementType.NEW, topo=self.topo, itype=itype,
                         **kwargs)
+        self._interfaces.append(iff)
         return iff
 
     def remove_interface(self, *, name: str) -> None:
@@ -425,9 +427,6 @@ class NetworkService(ModelElement):
         # link them together with L2Path
         peer_link = Link(name=self_iface.name + '-link', topo=self.topo, etype=ElementType.NEW,
                          interfaces=[self_iface, other_iface], ltype=LinkType.L2Path)
-        # update interface lists
-        self._interfaces.append(self_iface)
-        ns._interfaces.append(other_iface)
 
     def unpeer(self, ns) -> None:
         """
